@@ -114,6 +114,16 @@ def dims(g):
 
 
 # ------------------------------------------------------------------ probing the implementation
+def to_codes(arr):
+    """result of a probe as exact integers; anything that is not a small integer (garbage read through a wrong stride,
+    NaN, inf) becomes -998 so that the comparison fails instead of the harness"""
+    np = _impl().np
+    a = np.array(arr, dtype=np.float64).ravel()
+    ok = np.isfinite(a) & (np.abs(a) < 2.0 ** 40)
+    ok &= (np.where(ok, a, 0.0) == np.round(np.where(ok, a, 0.0)))
+    return [int(v) if o else -998 for v, o in zip(a.tolist(), ok.tolist())]
+
+
 def probe_forward(fn, g, unfold):
     impl = _impl(); np = impl.np
     N, C, H, W = g["N"], g["C"], g["H"], g["W"]
@@ -127,7 +137,7 @@ def probe_forward(fn, g, unfold):
     want = (N, R, L) if unfold else (R, N * L)
     if tuple(out.shape) != want:
         return BAD
-    return [int(v) for v in np.asarray(out).ravel().tolist()]
+    return to_codes(out)
 
 
 def probe_windows(g):
@@ -142,7 +152,7 @@ def probe_windows(g):
         return BAD
     if tuple(out.shape) != (lH, lW, N, C, g["kH"], g["kW"]):
         return BAD
-    return [int(v) for v in np.array(out).ravel().tolist()]
+    return to_codes(out)
 
 
 def pow4(n):
@@ -158,7 +168,10 @@ def decode_scatter(img, n_src, npix):
     seen = [0] * n_src
     out = []
     for pix, v in enumerate(img):
-        v = int(v)
+        try:
+            v = int(v)
+        except (ValueError, OverflowError, TypeError):
+            return BAD
         if v < 0:
             return BAD
         s = 0
@@ -226,7 +239,7 @@ def probe_1d(g):
     x = (1 + np.arange(N * C * W, dtype=np.float64)).reshape(N, C, W)
     try:
         out = ct.extract_windows(x, k, s, p, d, pad_value=-1.0)
-        tw = [int(v) for v in np.array(out).ravel().tolist()] if tuple(out.shape) == (l, N, C, k) else BAD
+        tw = to_codes(out) if tuple(out.shape) == (l, N, C, k) else BAD
     except Exception:
         tw = BAD
     n = l * N * C * k
@@ -409,11 +422,11 @@ def first_diff(a, b):
     np = _impl().np
     if a is None or b is None or a.shape != b.shape:
         return "shape"
-    idx = np.argwhere(a != b)
+    idx = np.argwhere(~((a == b) | (np.isnan(a) & np.isnan(b))))
     if len(idx) == 0:
         return None
     i = tuple(int(v) for v in idx[0])
-    return {"index": list(i), "observed": float(a[i]), "expected": float(b[i])}
+    return {"index": list(i), "observed": repr(float(a[i])), "expected": repr(float(b[i]))}
 
 
 def int_tuple_stream():
@@ -460,8 +473,8 @@ def run_int_tuple(g, mask):
     for name, call in calls:
         try:
             ref = np.asarray(call(a))
-        except Exception as ex:       # the all-tuple call itself fails: reported by the other ties
-            res.append((name, "tuple call raised %s" % type(ex).__name__)); continue
+        except Exception:             # the all-tuple call itself fails: not an int-vs-tuple matter, the other ties report it
+            res.append((name, None)); continue
         try:
             got = np.asarray(call(b))
             ok = got.shape == ref.shape and np.array_equal(got, ref)
